@@ -676,3 +676,59 @@ FAMILIES = [
            nontrivial=lambda c: len(c['ops']) >= 2, descr=descr_history,
            theorem='C13_edits_natural, C13_history_matrices, C13_history_local, C13_history_invariant, C13_reflect, C13_invert_axes, C13_normalize'),
 ]
+
+
+# ---- added after seeded change C13-3: an extracted sub-rotation is an independent value -------------------------
+def _gen_getitem_independent(rng, tier):
+    out = []
+    for _ in range(12 if tier == 'quick' else 200):
+        n = rng.randint(2, 5)
+        out.append({'n': n, 'seed': rng.randrange(10 ** 6), 'index': rng.choice(['int', 'slice', 'ellipsis', 'tuple', 'iter']),
+                    'edit': rng.choice(['setitem', 'quaternion_x', 'is_improper', 'setitem_improper'])})
+    return out
+
+
+def _impl_getitem_independent(c):
+    import torch
+    from mrpro.data import Rotation
+    g = torch.Generator().manual_seed(c['seed'])
+    q = torch.randint(-4, 5, (c['n'], 4), generator=g).to(torch.float64)
+    q[:, 3] += 5
+    flags = torch.randint(0, 2, (c['n'],), generator=g).bool()
+    r = Rotation(q, normalize=True, inversion=flags)
+    before = r.as_matrix().clone()
+    if c['index'] == 'int':
+        s = r[1]
+    elif c['index'] == 'slice':
+        s = r[0:2]
+    elif c['index'] == 'ellipsis':
+        s = r[...]
+    elif c['index'] == 'tuple':
+        s = r[(slice(1, None),)]
+    else:
+        s = next(iter(r))
+    other = Rotation(torch.tensor([1.0, 2.0, -1.0, 3.0], dtype=torch.float64), normalize=True, inversion=c['edit'] == 'setitem_improper')
+    if c['edit'] in ('setitem', 'setitem_improper'):
+        if s.single:
+            s[...] = other
+        else:
+            s[0] = other
+    elif c['edit'] == 'quaternion_x':
+        s.quaternion_x = s.quaternion_x * 0 + 0.5
+    else:
+        s.is_improper = ~s.is_improper
+    after = r.as_matrix()
+    return {'dev': float((after - before).abs().max())}
+
+
+def _oracle_getitem_independent(c, o):
+    if isinstance(o, dict) and 'raises' in o:
+        return None if o['raises'] in ('AttributeError', 'TypeError') else f'editing an extracted rotation raised {o}'
+    if o['dev'] > 0:
+        return (f'editing the rotation obtained by indexing ({c["index"]}) in place ({c["edit"]}) changed the matrices of the parent '
+                f'rotation it was taken from by {o["dev"]:.3g}')
+    return None
+
+
+FAMILIES.append(Family('getitem_independent', _gen_getitem_independent, _impl_getitem_independent, None, '', None, _oracle_getitem_independent,
+                       theorem='C13_history_local (an edit touches the edited value only)'))
